@@ -424,6 +424,7 @@ def run_case(ctx, case):
     on_limit_by = {}
     premature = {}
     stuck = {}
+    oscillating = {}
     for minimizer, mb in results.items():
         p = optimum(mb)
         if not np.all(np.isfinite(p)):
@@ -478,7 +479,15 @@ def run_case(ctx, case):
 
             res = optimize.minimize(g, p[interior_idx], method="Nelder-Mead", options={"xatol": 1e-7, "fatol": 1e-10, "maxiter": 4000, "initial_simplex": simplex(p[interior_idx], sig * 0.05)})
             shift = np.abs(res.x - p[interior_idx]) / sig
-            ctx.check("iterative-fixed-point", bool(np.all(shift <= (2e-2 if minimizer == "iminuit" else 1e-1))), lambda: dict(d, refit_optimum=res.x, shift_in_sigma=shift, frozen_cost_at_optimum=g(p[interior_idx]), frozen_cost_refit=float(res.fun)))
+            fp_ok = bool(np.all(shift <= (2e-2 if minimizer == "iminuit" else 1e-1)))
+            if not fp_ok:
+                oscillating[minimizer] = True
+            ctx.check(
+                "iterative-fixed-point",
+                fp_ok,
+                lambda: dict(d, refit_optimum=res.x, shift_in_sigma=shift, frozen_cost_at_optimum=g(p[interior_idx]), frozen_cost_refit=float(res.fun)),
+                key=lambda: two_cycle(mb, names, fixed, limited, p, interior_idx, res.x, sig, shift),
+            )
             ctx.worst["iterative_shift_sigma_" + minimizer] = max(ctx.worst.get("iterative_shift_sigma_" + minimizer, 0.0), float(shift.max()))
         else:
             best, best_p = c0, p
@@ -588,7 +597,12 @@ def run_case(ctx, case):
                 # stays there: not the well-posed single-basin problem of the quantifier
                 ctx.discard("backends-in-different-local-minima-both-stable")
                 return nontrivial
-            ctx.check("backends-agree", agree, lambda: {"iminuit": pa, "scipy": pb, "deviation_in_sigma_ref": dev, "sigma_ref": s, "tolerance": tolb}, key=lambda: "C06/scipy-backend-accepts-unconverged-result" if premature.get("scipy") else None)
+            ctx.check(
+                "backends-agree",
+                agree,
+                lambda: {"iminuit": pa, "scipy": pb, "deviation_in_sigma_ref": dev, "sigma_ref": s, "tolerance": tolb},
+                key=lambda: "C06/scipy-backend-accepts-unconverged-result" if premature.get("scipy") else (OSCILLATION_KEY if iterative and any(oscillating.values()) and backends_on_two_cycle(results, names, fixed, limited, pa, pb, s) else None),
+            )
             if dev.size:
                 ctx.worst["backend_deviation_sigma"] = max(ctx.worst.get("backend_deviation_sigma", 0.0), float(dev.max()))
     return nontrivial
@@ -604,6 +618,64 @@ def two_attractors(case, names, pa, pb, s):
             p2 = optimum(mb)
             idx = [i for i, nm in enumerate(names) if nm not in case["fixed"] and s[i] > 0]
             if np.any(np.abs(p2 - start)[idx] > 0.1 * s[idx]):
+                return False
+        return True
+    except Exception:
+        return False
+
+
+OSCILLATION_KEY = "C06/iterative-algorithm-alternates-between-two-points-and-returns-unconverged"
+
+
+def frozen_refit(mb, names, fixed, limited, at, interior_idx, start, step):
+    """one step of the reference iteration map: covariance frozen at the point `at`, documented cost minimised over the interior free
+    parameters (the others stay where they are in `at`), started at `start`"""
+    V = mb.ref.total_cov(at)
+    ok, cond = pd_info(V)
+    if not ok or cond > 1e8:
+        return None
+    fcost = make_objective(mb, names, fixed, limited, frozen_V=V)
+
+    def g(q):
+        pp = np.array(at, dtype=float)
+        pp[interior_idx] = q
+        return fcost(pp)
+
+    res = optimize.minimize(g, np.asarray(start, dtype=float), method="Nelder-Mead", options={"xatol": 1e-7, "fatol": 1e-10, "maxiter": 4000, "initial_simplex": simplex(start, step)})
+    return res.x
+
+
+def two_cycle(mb, names, fixed, limited, p, interior_idx, q, sig, shift):
+    """open finding: the iterative algorithm (refit with the uncertainties frozen at the previous optimum until the cost stops changing,
+    at most max_iterations = 10 times) does not converge when the iteration alternates between two points; do_fit() then returns the
+    point it happens to be at, without a warning.  Signature / explain-check (reference model only): the reference iteration map T
+    sends the reported optimum p to q = T(p) far from p, and q back to p (|T(q) - p| <= 0.1 |q - p|, measured in reference sigma):
+    p is one point of a 2-cycle of the iteration, so the iteration cannot have converged.  (A result that is merely short of a fixed
+    point the iteration converges to has T(q) next to q, not next to p.)"""
+    try:
+        at = np.array(p, dtype=float)
+        at[interior_idx] = q
+        for start in (q, p[interior_idx]):
+            back_x = frozen_refit(mb, names, fixed, limited, at, interior_idx, start, sig * 0.05)
+            if back_x is None:
+                return None
+            back = np.abs(back_x - p[interior_idx]) / sig
+            if float(back.max()) <= 0.1 * float(np.max(shift)):
+                return OSCILLATION_KEY
+    except Exception:
+        pass
+    return None
+
+
+def backends_on_two_cycle(results, names, fixed, limited, pa, pb, s):
+    """the two backends ended on the two different points of the same 2-cycle: T(pa) = pb and T(pb) = pa (same measure as two_cycle)"""
+    try:
+        idx = [i for i, nm in enumerate(names) if nm not in fixed and s[i] > 0]
+        mb = results["iminuit"]
+        dist = float(np.max(np.abs(pa - pb)[idx] / s[idx]))
+        for a, b in ((pa, pb), (pb, pa)):
+            x = frozen_refit(mb, names, fixed, limited, a, idx, a[idx], s[idx] * 0.05)
+            if x is None or float(np.max(np.abs(x - b[idx]) / s[idx])) > 0.1 * dist:
                 return False
         return True
     except Exception:
